@@ -5,6 +5,7 @@ full binary products and depth-3 chains), each expression is placed in each fals
 valuations; for every (condition, valuation) that CPython evaluates falsy the real violation message is parsed and
 compared line by line with an independent recording of CPython's own evaluation of the same text."""
 import ast
+import inspect
 import json
 
 from .. import core, expr
@@ -110,8 +111,10 @@ def judge(cond, role, rec, msg, call_args, a_repr, strict_none=True):
             bad.append(("duplicate_line", text))
         shown[text] = val
         ok = False
-        if text in texts and text in expr.SHADOWING_ARGS and any(
+        if text in texts and text in expr.SHADOWING_ARGS and not getattr(rec, "comp_walrus", None) and any(
                 i in rec.values and inf["text"] == text and not inf["in_fstring"] for i, inf in enumerate(rec.info)):
+            # (with a name bound by a named expression inside a comprehension, later operands may be left out altogether -
+            #  KF-C06-3 - and the line is then the function argument)
             # (names evaluated only inside an f-string are not listed at all, KF-C06-2; the line is then the function argument)
             # Python evaluated this name inside the condition, where it is the module global: that value counts, not the function
             # argument of the same name (which the condition does not take as a parameter)
@@ -177,7 +180,14 @@ def judge(cond, role, rec, msg, call_args, a_repr, strict_none=True):
             if inf["text"] not in shown:
                 where = "plain"
                 # inside an f-string nothing is listed (KF-C06-2), whatever else the node is
-                if inf["type"] == "Name" and inf["id"] in getattr(rec, "comp_walrus", ()):
+                cw = getattr(rec, "comp_walrus", ())
+                reads_cw = False
+                if cw and inf["type"] != "Name":
+                    try:
+                        reads_cw = any(isinstance(n, ast.Name) and n.id in cw for n in ast.walk(ast.parse("(" + inf["text"] + ")", mode="eval")))
+                    except SyntaxError:
+                        reads_cw = False
+                if (inf["type"] == "Name" and inf["id"] in cw) or reads_cw:
                     # bound by a named expression inside a comprehension: the re-computation runs the comprehension as compiled
                     # code and can not retrieve the binding (KF-C06-3); the name must then not be listed with another value
                     where = "name_bound_by_walrus_inside_comprehension"
@@ -197,7 +207,15 @@ def node_level(ns_cond, rec, call_args):
         import icontract._recompute as rc
         insp = rp.inspect_lambda_condition(condition=ns_cond)
         lookup = rp.collect_variable_lookup(condition=ns_cond, resolved_kwargs=call_args)
-        visitor = rc.Visitor(variable_lookup=lookup)
+        # mirror repr_values: the targets of named expressions are local to the lambda, never closure/global variables
+        local_names = {n.target.id for n in ast.walk(insp.node.body) if isinstance(n, ast.NamedExpr) and isinstance(n.target, ast.Name)}
+        if local_names:
+            params = set(inspect.signature(ns_cond).parameters)
+            lookup = [lk if i < 2 else {k: v for k, v in lk.items() if k not in local_names or k in params} for i, lk in enumerate(lookup)]
+        try:
+            visitor = rc.Visitor(variable_lookup=lookup, mangled_names=rp._collect_mangled_names(condition=ns_cond))
+        except (TypeError, AttributeError):
+            visitor = rc.Visitor(variable_lookup=lookup)
     except Exception:
         return []
     try:
